@@ -160,7 +160,7 @@ Section Merge.
     | None => lookup k ds
     | Some v => match lookup k ds with
                 | None => Some v
-                | Some dv => if is_obj v then update_config ord v dv else Some v
+                | Some dv => if is_obj v && is_obj dv then update_config ord v dv else Some v
                 end
     end.
 
@@ -345,7 +345,7 @@ Section MergeTheorems.
     assert (V : forall k, orel jeq (value ord us ds k) (value ord' us ds k)).
     { intros k. unfold value. destruct (lookup k us) as [v|] eqn:E; [|apply orel_refl_jeq].
       destruct (lookup k ds) as [dv|]; [|apply orel_refl_jeq].
-      destruct (is_obj v); [|apply orel_refl_jeq].
+      destruct (is_obj v && is_obj dv); [|apply orel_refl_jeq].
       apply lookup_In in E. rewrite Forall_forall in H. exact (H _ E dv). }
     destruct (update_config ord (JObj us) (JObj ds)) as [r|] eqn:E1;
       destruct (update_config ord' (JObj us) (JObj ds)) as [r'|] eqn:E2.
@@ -361,36 +361,19 @@ Section MergeTheorems.
     - constructor.
   Qed.
 
-  (** ** totality exactly on clash-free pairs *)
-  Theorem merge_defined_l : forall u d, no_clash u d = true -> exists r, upd u d = Some r.
+  (** ** totality on every pair of dicts (no side condition) *)
+  Theorem merge_total_l : forall u d, is_obj u = true -> is_obj d = true -> exists r, upd u d = Some r.
   Proof using Hord.
-    induction u using json_ind'; intros d Hc; try discriminate.
+    induction u using json_ind'; intros d Ou Od; try discriminate.
     destruct d as [| | | | |ds]; try discriminate. rename l into us.
     apply (update_defined ord Hord). intros k Hk. unfold value.
     destruct (lookup k us) as [v|] eqn:E.
     - destruct (lookup k ds) as [dv|] eqn:E2; [|discriminate].
-      destruct (is_obj v) eqn:O; [|discriminate].
-      assert (C : no_clash v dv = true).
-      { rewrite no_clash_unfold in Hc. rewrite forallb_forall in Hc. specialize (Hc _ (lookup_In _ _ _ E)).
-        cbn [fst snd] in Hc. rewrite E2, O in Hc. exact Hc. }
-      apply lookup_In in E. rewrite Forall_forall in H. destruct (H _ E dv C) as [r Hr].
+      destruct (is_obj v && is_obj dv) eqn:O; [|discriminate].
+      apply andb_true_iff in O. destruct O as [O1 O2].
+      apply lookup_In in E. rewrite Forall_forall in H. destruct (H _ E dv O1 O2) as [r Hr].
       cbn in Hr. unfold upd in Hr. rewrite Hr. discriminate.
     - destruct Hk as [Hk|Hk]; [apply lookup_Some_key in Hk; congruence | apply lookup_Some_key in Hk; exact Hk].
-  Qed.
-  Theorem merge_defined_only_if_l : forall u d r, wf u = true -> upd u d = Some r -> no_clash u d = true.
-  Proof using Hord.
-    induction u using json_ind'; intros d r Hw Hu; try discriminate.
-    destruct d as [| | | | |ds]; try discriminate. rename l into us.
-    apply (update_lookup ord Hord) in Hu. destruct Hu as [rs [-> [L D]]].
-    cbn in Hw. apply andb_true_iff in Hw. destruct Hw as [Hnd Hw].
-    rewrite no_clash_unfold. apply forallb_forall. intros [k v] Hin. cbn [fst snd].
-    destruct (lookup k ds) as [dv|] eqn:E2; [|reflexivity]. destruct (is_obj v) eqn:O; [|reflexivity].
-    assert (E1 : lookup k us = Some v) by (apply nodup_lookup; assumption).
-    assert (Hkin : In k (keys us) \/ In k (keys ds)). { left. apply lookup_Some_key. congruence. }
-    specialize (D k Hkin). unfold value in D. rewrite E1, E2, O in D.
-    destruct (update_config ord v dv) as [rv|] eqn:E3; [|congruence].
-    rewrite Forall_forall in H. apply (H _ Hin dv rv); [|exact E3].
-    rewrite forallb_forall in Hw. exact (Hw _ Hin).
   Qed.
 
   (** ** self-merge and idempotence *)
@@ -399,7 +382,7 @@ Section MergeTheorems.
     induction d using json_ind'; intros Ho; try discriminate. rename l into ds.
     assert (V : forall k, orel jeq (value ord ds ds k) (lookup k ds)).
     { intros k. unfold value. destruct (lookup k ds) as [v|] eqn:E; [|constructor].
-      destruct (is_obj v) eqn:O; [|apply orel_refl_jeq].
+      destruct (is_obj v) eqn:O; cbn [andb]; [|apply orel_refl_jeq].
       apply lookup_In in E. rewrite Forall_forall in H. destruct (H _ E O) as [r [Hr Hj]].
       cbn in Hr. unfold upd in Hr. rewrite Hr. constructor. exact Hj. }
     destruct (update_defined ord Hord ds ds) as [r Hr].
@@ -418,15 +401,16 @@ Section MergeTheorems.
     { intros k. unfold value. rewrite L. unfold value.
       destruct (lookup k us) as [v|] eqn:E.
       - destruct (lookup k ds) as [dv|] eqn:E2; [|apply orel_refl_jeq].
-        destruct (is_obj v) eqn:O; [|rewrite O; apply orel_refl_jeq].
+        destruct (is_obj v && is_obj dv) eqn:O; [|rewrite O; apply orel_refl_jeq].
+        apply andb_true_iff in O. destruct O as [O1 O2].
         destruct (update_config ord v dv) as [rv|] eqn:E3.
         2:{ exfalso. apply (D k); [left; apply lookup_Some_key; congruence|].
-            unfold value. rewrite E, E2, O. exact E3. }
-        destruct (update_obj ord Hord _ _ _ E3) as [_ [_ Orv]]. rewrite Orv.
+            unfold value. rewrite E, E2, O1, O2. exact E3. }
+        destruct (update_obj ord Hord _ _ _ E3) as [_ [_ Orv]]. rewrite Orv, O2. cbn [andb].
         apply lookup_In in E. rewrite Forall_forall in H. destruct (H _ E dv rv E3) as [r' [Hr' Hj]].
         cbn in Hr'. unfold upd in Hr'. rewrite Hr'. constructor. exact Hj.
       - destruct (lookup k ds) as [dv|] eqn:E2; [|constructor].
-        destruct (is_obj dv) eqn:O; [|apply orel_refl_jeq].
+        destruct (is_obj dv) eqn:O; cbn [andb]; [|apply orel_refl_jeq].
         destruct (merge_self_l dv O) as [r' [Hr' Hj]]. unfold upd in Hr'. rewrite Hr'. constructor. exact Hj. }
     destruct (update_defined ord Hord rs ds) as [r' Hr'].
     - intros k Hk Hn. specialize (V k). rewrite Hn in V. apply orel_None_inv in V.
@@ -464,9 +448,13 @@ Section MergeTheorems.
   (** ** leaves and keys along paths *)
   Definition leaf_at (j : json) (p : list string) (v : json) : Prop :=
     get_path p j = Some v /\ is_obj v = false.
-  (** the user says nothing at or above p: every prefix of p that exists in u is a dict *)
-  Definition unspecified (u : json) (p : list string) : Prop :=
-    forall q s v, p = q ++ s -> get_path q u = Some v -> is_obj v = true.
+  (** the user says nothing about p: walking down p in the user's tree falls off at a dict that lacks the
+      next key (it neither reaches p nor meets a non-dict value on the way) *)
+  Fixpoint unspecified (u : json) (p : list string) : Prop :=
+    match p, u with
+    | k :: p', JObj us => match lookup k us with None => True | Some uv => unspecified uv p' end
+    | _, _ => False
+    end.
 
   Lemma get_path_nonobj p j : is_obj j = false -> p <> [] -> get_path p j = None.
   Proof. destruct p; [congruence|]. destruct j; cbn; try reflexivity. discriminate. Qed.
@@ -476,45 +464,42 @@ Section MergeTheorems.
     - cbn. split; [intros [H _]; inversion H; auto | intros [_ ->]; auto].
     - rewrite (get_path_nonobj (k :: p) j O); [|discriminate]. split; [intros [H _]; discriminate | intros [H _]; discriminate].
   Qed.
-  Lemma unspecified_cons us k p :
-    unspecified (JObj us) (k :: p) <->
-    match lookup k us with None => True | Some uv => unspecified uv p end.
-  Proof.
-    unfold unspecified. split.
-    - intros H. destruct (lookup k us) as [uv|] eqn:E; [|exact I].
-      intros q s v Hp Hq. apply (H (k :: q) s v); [cbn; congruence|]. cbn. rewrite E. exact Hq.
-    - intros H q s v Hp Hq. destruct q as [|k' q]; [cbn in Hq; inversion Hq; reflexivity|].
-      cbn in Hp. inversion Hp; subst k'. cbn in Hq. destruct (lookup k us) as [uv|]; [|discriminate].
-      apply (H q s v); [congruence | exact Hq].
-  Qed.
+  Lemma unspecified_nonobj j p : is_obj j = false -> ~ unspecified j p.
+  Proof. destruct p; destruct j; cbn; try tauto. discriminate. Qed.
+  Lemma unspecified_nil j : ~ unspecified j [].
+  Proof. cbn. tauto. Qed.
 
-  (** the leaves of the result are exactly: the user's leaves, and the default leaves the user does not specify *)
+  (** the leaves of the result are exactly: the user's leaves (a user subtree given over a default leaf is
+      kept whole), and the default leaves the user does not specify *)
   Theorem merge_leaves_l : forall p u d r v, upd u d = Some r ->
     (leaf_at r p v <-> leaf_at u p v \/ (leaf_at d p v /\ unspecified u p)).
   Proof using Hord.
     induction p as [|k p IH]; intros u d r v Hu.
     - destruct (update_obj ord Hord _ _ _ Hu) as [Ou [Od Or]]. unfold leaf_at. cbn.
       split; [intros [H1 H2]; inversion H1; congruence|].
-      intros [[H1 H2]|[[H1 H2] _]]; inversion H1; congruence.
+      intros [[H1 H2]|[_ []]]. inversion H1; congruence.
     - destruct u as [| | | | |us]; try discriminate. destruct d as [| | | | |ds]; try discriminate.
       apply (update_lookup ord Hord) in Hu. destruct Hu as [rs [-> [L D]]].
-      rewrite unspecified_cons. unfold leaf_at. cbn [get_path]. rewrite L. unfold value.
+      unfold leaf_at. cbn [get_path unspecified]. rewrite L. unfold value.
       destruct (lookup k us) as [uv|] eqn:E1.
       + destruct (lookup k ds) as [dv|] eqn:E2.
-        * destruct (is_obj uv) eqn:O.
+        * destruct (is_obj uv && is_obj dv) eqn:O.
           -- destruct (update_config ord uv dv) as [rv|] eqn:E3.
              ++ apply (IH uv dv rv v E3).
              ++ exfalso. apply (D k).
                 ** left. apply lookup_Some_key. congruence.
                 ** unfold value. rewrite E1, E2, O. exact E3.
-          -- fold (leaf_at uv p v). fold (leaf_at dv p v). rewrite (leaf_at_nonobj uv p v O).
-             split; [intros H; left; exact H|]. intros [H|[_ H]]; [exact H|].
-             exfalso. specialize (H [] p uv eq_refl eq_refl). congruence.
+          -- fold (leaf_at uv p v). fold (leaf_at dv p v).
+             split; [intros H; left; exact H|]. intros [H|[Hd Hn]]; [exact H|]. exfalso.
+             apply andb_false_iff in O. destruct O as [O|O].
+             ++ exact (unspecified_nonobj uv p O Hn).
+             ++ apply (leaf_at_nonobj dv p v O) in Hd. destruct Hd as [-> _]. exact (unspecified_nil uv Hn).
         * split; [intros H; left; exact H|]. intros [H|[[H _] _]]; [exact H | discriminate].
       + split.
         * intros H. right. split; [exact H | exact I].
         * intros [[H _]|[H _]]; [discriminate | exact H].
   Qed.
+
   (** keys of the result = union of the keys, at every path where both trees have a dict *)
   Theorem merge_keys_l : forall p u d r us' ds', upd u d = Some r ->
     get_path p u = Some (JObj us') -> get_path p d = Some (JObj ds') ->
@@ -536,10 +521,12 @@ Section MergeTheorems.
       destruct (lookup k ds) as [dv|] eqn:E2; [|discriminate].
       assert (O : is_obj uv = true).
       { destruct p; cbn in Gu; [inversion Gu; reflexivity|]. destruct uv; try discriminate; reflexivity. }
-      rewrite O. destruct (update_config ord uv dv) as [rv|] eqn:E3.
+      assert (O' : is_obj dv = true).
+      { destruct p; cbn in Gd; [inversion Gd; reflexivity|]. destruct dv; try discriminate; reflexivity. }
+      rewrite O, O'. cbn [andb]. destruct (update_config ord uv dv) as [rv|] eqn:E3.
       + exact (IH uv dv rv us' ds' E3 Gu Gd).
       + exfalso. apply (D k); [left; apply lookup_Some_key; congruence|].
-        unfold value. rewrite E1, E2, O. exact E3.
+        unfold value. rewrite E1, E2, O, O'. exact E3.
   Qed.
   (** the result contains no key path that is in neither input *)
   Theorem merge_no_other_keys_l : forall p u d r x, upd u d = Some r -> get_path p r = Some x ->
@@ -551,7 +538,7 @@ Section MergeTheorems.
     cbn [get_path] in *. rewrite L in Gr. unfold value in Gr.
     destruct (lookup k us) as [uv|] eqn:E1.
     - destruct (lookup k ds) as [dv|] eqn:E2.
-      + destruct (is_obj uv) eqn:O.
+      + destruct (is_obj uv && is_obj dv) eqn:O.
         * destruct (update_config ord uv dv) as [rv|] eqn:E3; [|discriminate].
           exact (IH uv dv rv x E3 Gr).
         * left. congruence.
@@ -560,31 +547,27 @@ Section MergeTheorems.
   Qed.
 End MergeTheorems.
 
-(** * the merge is not total on nested dictionaries (defect D11 of the pinned tree) *)
+(** * HISTORY: before the repair e564612 the merge was not total on nested dictionaries (defect D11);
+    on the same witness the repaired function keeps the user's subtree *)
 Definition d11_user : json := JObj [("a"%string, JObj [("b"%string, JNum (NInt 1))])].
 Definition d11_default : json := JObj [("a"%string, JNum (NInt 2))].
-Theorem merge_total_refuted_l :
+Theorem merge_total_refuted_before_fix_l :
   exists u d, wf u = true /\ wf d = true /\ is_obj u = true /\ is_obj d = true /\
-              forall ord, key_order ord -> update_config ord u d = None.
-Proof.
-  exists d11_user, d11_default. repeat split; try reflexivity. intros ord Hord.
-  pose proof (merge_order_independent_l ord Hord dedup key_order_dedup d11_user d11_default) as H.
-  assert (E : update_config dedup d11_user d11_default = None) by (vm_compute; reflexivity).
-  rewrite E in H. apply orel_None_inv_r in H. exact H.
-Qed.
+              update_config_before_fix dedup u d = None /\ update_config dedup u d = Some u.
+Proof. exists d11_user, d11_default. vm_compute. repeat split. Qed.
 
-(** non-vacuity: the hypotheses of the merge theorems are satisfiable by a nested example with shared and
-    disjoint keys and a user leaf over a default dict *)
+(** non-vacuity / illustration: a nested example with shared and disjoint keys, a user leaf over a default
+    dict and a user dict over a default leaf *)
 Definition ex_user : json :=
   JObj [("q"%string, JObj [("s"%string, JObj [("NT"%string, JNum (NInt 31))]); ("x"%string, JNull)]);
-        ("o"%string, JStr "leaf")].
+        ("o"%string, JStr "leaf"); ("w"%string, JObj [("z"%string, JBool true)])].
 Definition ex_default : json :=
   JObj [("q"%string, JObj [("i"%string, JStr "input01");
                           ("s"%string, JObj [("NT"%string, JNum (NInt 16)); ("DT"%string, JNum (NInt 100))])]);
-        ("o"%string, JObj [("p"%string, JArr [JStr "cij"])])].
-Example ex_no_clash : no_clash ex_user ex_default = true /\ wf ex_user = true /\ wf ex_default = true /\
+        ("o"%string, JObj [("p"%string, JArr [JStr "cij"])]); ("w"%string, JNum (NInt 7))].
+Example ex_merge : wf ex_user = true /\ wf ex_default = true /\
   update_config dedup ex_user ex_default =
   Some (JObj [("q"%string, JObj [("s"%string, JObj [("NT"%string, JNum (NInt 31)); ("DT"%string, JNum (NInt 100))]);
                                  ("x"%string, JNull); ("i"%string, JStr "input01")]);
-              ("o"%string, JStr "leaf")]).
+              ("o"%string, JStr "leaf"); ("w"%string, JObj [("z"%string, JBool true)])]).
 Proof. vm_compute. repeat split. Qed.
